@@ -111,7 +111,7 @@ def expected(chain):
 # annotations (base-graph dialect: q, w positional; shared with C14)
 # ----------------------------------------------------------------------------------------
 NUM_SPELLINGS = ['1', '+1', '-1', '0', '0.5', '-0.25', '1e-1', '2', '+0.75', '12', '1.50', '-3e0', '.5']
-FREE_KEYS = ['mass', 'r', 'p', 'foo', 'k1', 'label', 'site', 't', 'zz']
+FREE_KEYS = ['mass', 'r', 'p', 'foo', 'k1', 'label', 'site', 't', 'zz', 'Res', 'S1', 'Rg']
 FREE_VALUES = ['abc', 's', 'l', '72', 'X1', 'a_b', '0.5', 'R', 'up', 'a-b', 'v+']
 
 
